@@ -13,6 +13,7 @@ import PowHsm.Spec.C01
 import PowHsm.Spec.C05
 import PowHsm.Spec.C13
 import PowHsm.Spec.C09
+import PowHsm.Spec.C10
 namespace PowHsm
 namespace Ops
 open Ledger Comm Dongle Spec
@@ -157,6 +158,54 @@ def bringup (input implOut : Json) : Option (Json × Bool) := do
            network := ← nat "network" }
   pure (model, Spec.C09.c09 w.script needs truth { events := ievs, outcome := iout })
 
+/-- C10: one manager life of the PIN machine -/
+def pinrun (input implOut : Json) : Option (Json × Bool) := do
+  let optBytes (j : Json) (k : String) : Option (Option Bytes) :=
+    match j.get? k with
+    | some .null => some none
+    | some v => v.asBytes?.map some
+    | none => some none
+  let w : Spec.C10.PW := { file := ← optBytes input "file", devicePin := ← (← input.get? "device_pin").asBytes?,
+                           default := ← optBytes input "default" }
+  let dev ← match input.get? "dev" with
+    | some (.str "accept") => some Spec.C10.DevAns.accept
+    | some (.str "refuse") => some .refuse
+    | some (.str "error") => some .error
+    | _ => none
+  let crash ← match input.get? "crash" with
+    | some (.str "none") => some Spec.C10.Crash.none
+    | some (.str "afterUnlock") => some .afterUnlock
+    | some (.str "afterAck") => some .afterAck
+    | some (.str "afterOpen") => some .afterOpen
+    | some (.str "afterWrite") => some .afterWrite
+    | _ => none
+  let r : Spec.C10.Run := { force := ← (← input.get? "force").asBool?, newPin := ← (← input.get? "new_pin").asBytes?,
+                            dev := dev, openOk := ← (← input.get? "open_ok").asBool?,
+                            writeOk := ← (← input.get? "write_ok").asBool?, crash := crash }
+  let (w', out, sent) := Spec.C10.run w r
+  let outName := match out with
+    | .pinError => "pinError" | .unlockFailed => "unlockFailed" | .continued => "continued"
+    | .stopped => "stopped" | .crashed => "crashed"
+  let model := Json.obj [("file", optBytesToJson w'.file), ("device_pin", Json.ofBytes w'.devicePin),
+                         ("outcome", .str outName), ("sent", optBytesToJson sent)]
+  -- oracle on the implementation's final world
+  let ifile ← optBytes implOut "file"
+  let idev ← (← implOut.get? "device_pin").asBytes?
+  let iout ← (← implOut.get? "outcome").asStr?
+  let iw : Spec.C10.PW := { w with file := ifile, devicePin := idev }
+  let ok :=
+    -- the file changes only after the device acknowledged, and then the device holds that PIN
+    (ifile == w.file || (dev == .accept && idev == r.newPin)) &&
+    -- a completed change leaves exactly that PIN in the file
+    (match ifile with | some c => ifile == w.file || c.isEmpty || c == idev | none => true) &&
+    -- refused / failed: untouched
+    (dev == .accept || (ifile == w.file && idev == w.devicePin)) &&
+    -- carries on only when no change was needed
+    (iout != "continued" || (r.force == false && w.file.isSome && ifile == w.file && idev == w.devicePin)) &&
+    -- recoverability
+    (!Spec.C10.recoverable w || Spec.C10.recoverable iw)
+  pure (model, ok)
+
 def run (op : String) (input implOut : Json) : Option (Json × Bool) :=
   match op with
   | "unsign" => unsign input implOut
@@ -182,6 +231,7 @@ def run (op : String) (input implOut : Json) : Option (Json × Bool) :=
       | some j, some d => Spec.C13.c13 j d o
       | _, _ => false) input implOut
   | "bringup" => bringup input implOut
+  | "pinrun" => pinrun input implOut
   | _ => none
 
 end Ops
